@@ -56,6 +56,7 @@ Proof.
     + inversion E; subst. cbn. split; [lia|auto].
     + unfold ext_del in E. destruct (d_st (doc s)); inversion E; subst; cbn; split; auto; lia.
     + unfold ext_touch in E. destruct (d_st (doc s)); inversion E; subst; cbn; split; auto; lia.
+    + unfold legacy_write in E. destruct (d_st (doc s)); inversion E; subst; cbn; split; auto; lia.
     + inversion E; subst. split; auto; lia.
 Qed.
 
@@ -70,6 +71,7 @@ Proof.
     + inversion E; subst. cbn. lia.
     + unfold ext_del in E. destruct (d_st (doc s)); inversion E; subst; cbn; lia.
     + unfold ext_touch in E. destruct (d_st (doc s)); inversion E; subst; cbn; lia.
+    + unfold legacy_write in E. destruct (d_st (doc s)); inversion E; subst; cbn; lia.
     + inversion E; subst. lia.
 Qed.
 
@@ -225,14 +227,29 @@ Proof.
 Qed.
 
 Theorem own_write_never_imported s o : Inv 0 0 s -> is_import_op o = true -> own (doc s) = true ->
-  doc (st1 s o) = doc s /\ imports (st1 s o) = imports s.
+  imports (st1 s o) = imports s /\ hist_of (doc (st1 s o)) = hist_of (doc s) /\
+  bstate (doc (st1 s o)) = bstate (doc s) /\ own (doc (st1 s o)) = true.
 Proof.
   intros HI IO O. unfold st1. destruct o; try discriminate; rewrite step_simple by (intros; discriminate);
     cbn [simple_step fst].
   - rewrite (gw_read_nofire crc delcrc 0 0) by auto. rewrite O. cbn. auto.
   - destruct (gw_feed true crc delcrc no_fire k s) as [s1 r] eqn:E. cbn.
-    destruct (gw_feed_nofire crc delcrc 0 0 _ _ _ _ HI E) as [_ [(Imp & _)|[A B]]]; auto.
-    unfold ImportInv.importable in Imp. rewrite O, andb_false_r in Imp. discriminate.
+    destruct (gw_feed_nofire crc delcrc 0 0 _ _ _ _ HI E) as [_ [(Imp & _)|[[A B]|(_ & O' & H1 & H2 & H3)]]]; auto.
+    + unfold ImportInv.importable in Imp. rewrite O, andb_false_r in Imp. discriminate.
+    + rewrite A. auto.
+Qed.
+
+(* a pending external write survives the delivery of any feed event -- in particular of a delayed gateway-write
+   event that triggers the attachment-metadata migration: the delivery either imports it or leaves the document alone *)
+Theorem feed_never_hides_external_write s k : Inv 0 0 s -> importable (doc s) = true ->
+  (imports (st1 s (Feed k)) = N.succ (imports s) /\ own (doc (st1 s (Feed k))) = true) \/
+  (doc (st1 s (Feed k)) = doc s /\ imports (st1 s (Feed k)) = imports s).
+Proof.
+  intros HI Imp. unfold st1. rewrite step_simple by (intros; discriminate). cbn [simple_step fst].
+  destruct (gw_feed true crc delcrc no_fire k s) as [s1 r] eqn:E. cbn.
+  destruct (gw_feed_nofire crc delcrc 0 0 _ _ _ _ HI E) as [_ [(_ & Im & seq & Ed)|[[A B]|(O & _)]]]; auto.
+  - left. split; auto. rewrite Ed. unfold ImportInv.own, import_doc, sd_is_sg_write. cbn. rewrite N.eqb_refl. reflexivity.
+  - unfold ImportInv.importable in Imp. rewrite O, andb_false_r in Imp. discriminate.
 Qed.
 
 (* shape of the revision created by an import (read or feed delivery) *)
@@ -262,7 +279,7 @@ Proof.
     destruct (importable (doc s)); [|cbn in NE; congruence].
     cbn. repeat split; auto. eapply import_doc_shape; eauto.
   - destruct (gw_feed true crc delcrc no_fire k s) as [s1 r] eqn:E. cbn in *.
-    destruct (gw_feed_nofire crc delcrc 0 0 _ _ _ _ HI E) as [_ [(Imp & Im & seq & Ed)|[A B]]]; [|congruence].
+    destruct (gw_feed_nofire crc delcrc 0 0 _ _ _ _ HI E) as [_ [(Imp & Im & seq & Ed)|[[A B]|(_ & _ & _ & _ & B)]]]; [|congruence|congruence].
     repeat split; auto. rewrite Ed. eapply import_doc_shape; eauto.
 Qed.
 
